@@ -30,7 +30,9 @@ C06Viol(e) ==
        (IF e.died # "" THEN {"C06_process_died_or_hung"} ELSE {})
   \cup (IF e.panic THEN {"C06_panic"} ELSE {})
   \cup (IF e.us > 250000 THEN {"C06_time_out_of_proportion"} ELSE {})
-  \cup (IF e.alloc > 1048576 + 256 * e.len THEN {"C06_memory_out_of_proportion"} ELSE {})
+  \* e.sock: the n datagrams came through the socket and the UDPListener, which receives each one into a fresh
+  \* slice of the maximum UDP size (64 KiB, released with the message): counted per datagram, not as bloat
+  \cup (IF e.alloc > 1048576 + 256 * e.len + (IF e.sock THEN 65536 * e.n ELSE 0) THEN {"C06_memory_out_of_proportion"} ELSE {})
 
 TraceInit == AbsInit /\ l = 1 /\ rel = TRUE /\ run = 0
 
